@@ -158,6 +158,17 @@ pub fn constructs(thorough: bool) -> Vec<Construct> {
     v.push(stmt_c("fn-in-loop", 1, |o| {
         format!("r := mut [any] []; loop {{ h := () -> any {{ loop {{ break }}; return {} }}; r += [h()]; break }}; return *r;", o[0])
     }));
+    // degenerate forms: every repetition of the grammar with zero items, in each position
+    // where the checker asks for the type of the form
+    v.push(stmt_c("match0-bound", 1, |o| format!("x := match {} {{ }}; return x;", o[0])));
+    v.push(stmt_c("match0-return", 1, |o| format!("return match {} {{ }};", o[0])));
+    v.push(stmt_c("match0-stmt", 1, |o| format!("match {} {{ }}; return 1;", o[0])));
+    v.push(stmt_c("match0-fn-body", 1, |o| format!("g := () -> int {{ match {} {{ }} }}; return g;", o[0])));
+    v.push(stmt_c("match0-in-tuple", 1, |o| format!("m := match {} {{ }}; return (m, 1);", o[0])));
+    v.push(stmt_c("match-other-only", 2, |o| format!("return match {} {{ => {}, }};", o[0], o[1])));
+    v.push(stmt_c("if-empty-blocks", 1, |o| format!("r := if {} {{ }} else {{ }}; return r;", o[0])));
+    v.push(stmt_c("block0", 1, |o| format!("{}; r := {{ }}; return r;", o[0])));
+    v.push(stmt_c("fn-empty-body", 1, |o| format!("g := () -> () {{ }}; return (g(), {});", o[0])));
     // binders that shadow an operand: outside the bound body the outer operand is meant
     for t in palette::position_types() {
         let ts = t.print();
@@ -168,6 +179,39 @@ pub fn constructs(thorough: bool) -> Vec<Construct> {
         let ts2 = ts.clone();
         v.push(stmt_c(&format!("match-shadow:{ts}"), 2, move |o| {
             format!("return match {} {{ a: {ts2} => a, => {}, }};", o[1], o[0])
+        }));
+        // the same inside a closure: the shadowed operand is a captured name there
+        let ts2 = ts.clone();
+        v.push(stmt_c(&format!("ifset-shadow-closure:{ts}"), 2, move |o| {
+            format!("g := () -> any {{ if a: {ts2} = {} {{ return a }} else {{ return {} }} }}; return g();", o[1], o[0])
+        }));
+        let ts2 = ts.clone();
+        v.push(stmt_c(&format!("match-shadow-closure:{ts}"), 2, move |o| {
+            format!("g := () -> any {{ return match {} {{ a: {ts2} => a, => {}, }}; }}; return g();", o[1], o[0])
+        }));
+        // a cell handed on through a position declared with the cell type `mut T`, written
+        // there, then read through its first name
+        let ts2 = Ty::mutc(t.clone()).print();
+        v.push(stmt_c(&format!("cell-through-param:{ts}"), 2, move |o| {
+            format!("g := (c: {ts2}) -> () {{ c = {} }}; g({}); return ({}, *{});", o[1], o[0], o[0], o[0])
+        }));
+        let ts2 = Ty::mutc(t.clone()).print();
+        v.push(stmt_c(&format!("cell-through-result:{ts}"), 2, move |o| {
+            format!("g := () -> {ts2} {{ return {} }}; c := g(); c = {}; return ({}, *{});", o[0], o[1], o[0], o[0])
+        }));
+        // ... and used by an operation that relies on the first name's type
+        let ts2 = Ty::mutc(t.clone()).print();
+        v.push(stmt_c(&format!("cell-through-param-then-use:{ts}"), 2, move |o| {
+            format!("g := (c: {ts2}) -> () {{ c = {} }}; g({}); r := match *{} {{ q: int => q + 1, q: float => q + 1.0, q: string => q + \"s\", q: [int] => q + [1], => 0, }}; return (r, *{} + *{});", o[1], o[0], o[0], o[0], o[0])
+        }));
+        // a general reduction answers with its initial value when nothing is pulled
+        let ts2 = ts.clone();
+        v.push(expr_c(&format!("reduce-to:{ts}"), 3, move |o| {
+            format!("{} ${} (acc: any, x: any) -> {ts2} {{ return {} }}", o[0], o[1], o[2])
+        }));
+        let ts2 = Ty::mutc(t.clone()).print();
+        v.push(stmt_c(&format!("cell-through-array:{ts}"), 2, move |o| {
+            format!("g := (cs: [{ts2}]) -> () {{ cs[0] = {} }}; g([{}]); return ({}, *{});", o[1], o[0], o[0], o[0])
         }));
     }
     v
